@@ -398,9 +398,14 @@ def t_part(ctx, prop):
     xtra = 1 if ctx.tier == 'thorough' else 0      # thorough: one byte beyond the schema's own bound where the table count allows
     with concurrent.futures.ThreadPoolExecutor(max_workers=14) as ex:
         esc = set(ctx.cache.get('escalate') or [])
-        futs = {n: ex.submit(run_schema, T, n, sm.bound_for(SCHEMAS[n], THOROUGH_CAP if n in esc else cap, extra=xtra)) for n in run}
+        # a schema's enumeration does not depend on the property asking (labels are attributed afterwards): within one process
+        # (`./check ALL`) each (schema, bound) is enumerated once
+        ecache = T.setdefault('enum_cache', {})
+        bounds = {n: sm.bound_for(SCHEMAS[n], THOROUGH_CAP if n in esc else cap, extra=xtra) for n in run}
+        futs = {n: ex.submit(run_schema, T, n, bounds[n]) for n in run if (n, bounds[n]) not in ecache}
         dfuts = {n: ex.submit(run_diff, T, n, tw, sm.bound_for(SCHEMAS[n], cap, extra=xtra), DIFF[prop][1]) for n, tw in diff_jobs.items()}
-        for n, f in futs.items(): results[n] = f.result()
+        for n, f in futs.items(): ecache[(n, bounds[n])] = f.result()
+        for n in run: results[n] = ecache[(n, bounds[n])]
         for n, f in dfuts.items(): diffs[n] = f.result()
     if prop in DIFF:
         for n, tw in diff_jobs.items():
